@@ -19,13 +19,14 @@ def config(rng, tier):
     deep = tier == "thorough"
     return {
         "regime": rng.choice(["grid", "grid", "decimal"]),
-        "labels": rng.choice(["plain", "plain", "punct", "empty", "unicode"]),
+        "labels": rng.choice(["plain", "plain", "punct", "empty", "unicode", "numeric"]),
         "pad_inserts": False,
         "kind": rng.choice(["I", "I", "P"]),
         "steps": rng.randrange(3, 25 if deep else 13),
         "fault_rate": rng.choice([0.0, 0.1, 0.25, 0.4]),
         "derive": rng.choice([0.0, 0.05, 0.15]),
         "two": rng.random() < 0.3,
+        "warn_error": rng.random() < 0.1,  # run under warnings.simplefilter("error")
         "dup_points": rng.random() < 0.3,
         "ulps": rng.random() < 0.3,  # decimal regime: boundaries also nudged by one ulp / 1e-9 (exact model)  # point tiers may start with several points at one time
         "maxn": rng.choice([8] * 30 + [24, 24, 24, 40, 40, 120, 120, 320, 320, 640]),
